@@ -426,3 +426,107 @@ func mergeSamePos(edits []Edit) []Edit {
 	}
 	return out
 }
+
+// MutantPairs enumerates the 2-deviation mutants of one source file within a locality bound: every
+// unordered pair of 1-deviation mutants (operator set ops) whose sites lie in the same top-level
+// declaration and whose edits do not overlap or touch. Both deviations are applied together; the
+// helpers of both are kept (a pair whose helpers declare the same name is dropped by the type checker
+// like any other ill-typed candidate). maxLines >= 0 additionally bounds the distance between the two
+// sites in source lines (0 = same line).
+func MutantPairs(filename, src string, ops map[string]bool, maxLines int) []Mutant {
+	ms := Mutants(filename, src, ops)
+	if len(ms) < 2 {
+		return nil
+	}
+	fset := token.NewFileSet()
+	f, err := parser.ParseFile(fset, filename, src, parser.ParseComments)
+	if err != nil {
+		return nil
+	}
+	type span struct{ from, to int }
+	var decls []span
+	for _, d := range f.Decls {
+		decls = append(decls, span{fset.Position(d.Pos()).Offset, fset.Position(d.End()).Offset})
+	}
+	declOf := func(m *Mutant) int {
+		if len(m.Edits) == 0 {
+			return -1
+		}
+		lo, hi := m.Edits[0].From, m.Edits[0].To
+		for _, e := range m.Edits {
+			if e.From < lo {
+				lo = e.From
+			}
+			if e.To > hi {
+				hi = e.To
+			}
+		}
+		for i, d := range decls {
+			if lo >= d.from && hi <= d.to {
+				return i
+			}
+		}
+		return -1
+	}
+	disjoint := func(a, b []Edit) bool {
+		for _, x := range a {
+			for _, y := range b {
+				if x.From <= y.To && y.From <= x.To { // overlapping or touching
+					return false
+				}
+			}
+		}
+		return true
+	}
+	byDecl := map[int][]int{}
+	var order []int
+	for i := range ms {
+		d := declOf(&ms[i])
+		if d < 0 {
+			continue
+		}
+		if _, ok := byDecl[d]; !ok {
+			order = append(order, d)
+		}
+		byDecl[d] = append(byDecl[d], i)
+	}
+	var out []Mutant
+	for _, d := range order {
+		idx := byDecl[d]
+		for x := 0; x < len(idx); x++ {
+			for y := x + 1; y < len(idx); y++ {
+				a, b := &ms[idx[x]], &ms[idx[y]]
+				if !disjoint(a.Edits, b.Edits) {
+					continue
+				}
+				if maxLines >= 0 {
+					la, lb := lineOf(src, a.Edits[0].From), lineOf(src, b.Edits[0].From)
+					if la-lb > maxLines || lb-la > maxLines {
+						continue
+					}
+				}
+				m := Mutant{Op: a.Op + "+" + b.Op, Site: a.Site + "+" + b.Site[strings.Index(b.Site, ":")+1:]}
+				m.Edits = append(append([]Edit{}, a.Edits...), b.Edits...)
+				switch {
+				case a.Helper == "sibling" || b.Helper == "sibling":
+					m.Helper = "sibling"
+					m.HelperSrc = a.HelperSrc + b.HelperSrc
+					if a.Helper == "pair" || b.Helper == "pair" {
+						m.HelperSrc += PairHelpers
+					}
+				case a.Helper == "pair" || b.Helper == "pair":
+					m.Helper = "pair"
+				}
+				out = append(out, m)
+			}
+		}
+	}
+	return out
+}
+
+func lineOf(src string, off int) int {
+	if off > len(src) {
+		off = len(src)
+	}
+	return strings.Count(src[:off], "\n")
+}
